@@ -1,4 +1,5 @@
 import WV.Proofs.C13
+import WV.Proofs.C13_Open
 
 /-!
 C13 property theorems — subchannels open once, close once, honour the subprotocol contract.
@@ -317,6 +318,102 @@ theorem listen_connects_pending (s : Side) (name : String) (k : PKind) (uid : Na
     rw [hstep]
     exact ⟨rfl, h2, h5, h3⟩
 
+/-- **open_exactly_once, at `listen` time, for any number of pending OPENs.**  `ps` describes the
+    queue for `name` as `listen` finds it, in arrival order: SubChannel, the DATA queued on *that*
+    SubChannel, and whether a CLOSE is queued on it (`PendOK`: each is an unconnected SubChannel
+    object of its own, registered under its id).  Then `listen(name)` connects them one after the
+    other in that order: protocol numbers `protoCount, protoCount+1, …`; for each exactly one
+    `buildProtocol`, `connectionMade`, its own queued data in arrival order, then its close
+    (`listenEffs`); nothing stays pending. -/
+theorem listen_connects_all_pending (s : Side) (name : String) (k : PKind) (ps : List Pend)
+    (hfac : lookup name s.factories = none) (hpend : lookup name s.pendingOpens = some (ps.map (·.1)))
+    (hnd : (ps.map (·.1)).Nodup) (hok : ∀ p ∈ ps, PendOK s p) :
+    (step s (.listen name k)).2 = none ∧
+    (step s (.listen name k)).1.log = s.log ++ listenEffs k s.protoCount s.nextSeq ps ∧
+    (step s (.listen name k)).1.pendingOpens = eraseKey name s.pendingOpens ∧
+    (step s (.listen name k)).1.protoCount = s.protoCount + ps.length := by
+  have hok' : ∀ p ∈ ps, PendOK { s with factories := s.factories ++ [(name, k)], pendingOpens := eraseKey name s.pendingOpens } p :=
+    fun p hp => hok p hp
+  obtain ⟨s', hs', hlog, hpc, hsame, _⟩ := connectAll_spec k ps _ hnd hok'
+  have hstep : step s (.listen name k) = (s', none) := by
+    simp only [step, register, hfac, Option.isSome, Bool.false_eq_true, if_false, hpend, hs']
+  rw [hstep]
+  exact ⟨rfl, hlog, hsame.pendingOpens, hpc⟩
+
+/-- … and each of them is handed exactly the data that was queued on *its own* SubChannel: the
+    `dataReceived` payloads of the `i`-th protocol built are the `i`-th entry's list (a queue
+    shared between SubChannel objects would deliver the union and falsify this). -/
+theorem each_pending_gets_its_own_data (s : Side) (name : String) (k : PKind) (ps : List Pend)
+    (hfac : lookup name s.factories = none) (hpend : lookup name s.pendingOpens = some (ps.map (·.1)))
+    (hnd : (ps.map (·.1)).Nodup) (hok : ∀ p ∈ ps, PendOK s p) (i : Nat) (p : Pend) (hi : ps[i]? = some p) :
+    dataOf (s.protoCount + i) ((step s (.listen name k)).1.log.drop s.log.length) = p.2.2.1 := by
+  have h := (listen_connects_all_pending s name k ps hfac hpend hnd hok).2.1
+  rw [h, List.drop_left]
+  exact dataOf_listenEffs k ps s.protoCount s.nextSeq i p hi
+
+/-- **open_exactly_once (run level).**  After *any* history (application calls interleaved with
+    arbitrary inbound records), on the side's store of SubChannel objects (one per accepted OPEN
+    record and per local `connect()`), protocols and `buildProtocol` calls:
+
+    1. a SubChannel without a protocol is either *pending* — queued exactly under its own name, no
+       listener for that name exists, still registered under its id (so `listen` will connect it:
+       `listen_connects_all_pending`) — or was *dropped*: registered nowhere, and then either the
+       application had declared a set that excludes its name (the refusal of `unexpected_refused`)
+       or it is the garbage of a local `connect()` whose id a protocol-violating peer had taken;
+       nothing else: no accepted OPEN is ever lost;
+    2. a SubChannel with protocol `p`: `buildProtocol` produced `p` exactly once, for this
+       SubChannel's subprotocol name, and no other SubChannel has `p`;
+    3. `buildProtocol` calls and protocols correspond one to one: protocol numbers below
+       `protoCount` were built exactly once and have a SubChannel, others never. -/
+theorem open_exactly_once (l : Bool) (f : Nat) (ex : Option (List String)) (ops : List Op) :
+    (∀ (uid : Nat) (c : SC), (run (Side.init l f ex) ops).subs[uid]? = some c → c.proto = none →
+      (uid ∈ pendingFor c.name (run (Side.init l f ex) ops).pendingOpens ∧
+        lookup c.name (run (Side.init l f ex) ops).factories = none ∧
+        lookup c.scid (run (Side.init l f ex) ops).open_ = some uid ∧ c.st = .unconnected) ∨
+      ((∀ scid : Nat, lookup scid (run (Side.init l f ex) ops).open_ ≠ some uid) ∧
+        (∀ name, uid ∉ pendingFor name (run (Side.init l f ex) ops).pendingOpens) ∧
+        (Refusable (run (Side.init l f ex) ops) c.name ∨ c.scid ∈ openIds (run (Side.init l f ex) ops).log))) ∧
+    (∀ (uid : Nat) (c : SC) (p : Nat) (k : PKind), (run (Side.init l f ex) ops).subs[uid]? = some c →
+      c.proto = some (p, k) →
+      buildCount p (run (Side.init l f ex) ops).log = 1 ∧ Eff.build p c.name ∈ (run (Side.init l f ex) ops).log ∧
+      ∀ (uid' : Nat) (c' : SC) (k' : PKind), (run (Side.init l f ex) ops).subs[uid']? = some c' →
+        c'.proto = some (p, k') → uid' = uid) ∧
+    (∀ p : Nat, buildCount p (run (Side.init l f ex) ops).log =
+        if p < (run (Side.init l f ex) ops).protoCount then 1 else 0) ∧
+    (∀ p : Nat, p < (run (Side.init l f ex) ops).protoCount →
+      ∃ (uid : Nat) (c : SC) (k : PKind), (run (Side.init l f ex) ops).subs[uid]? = some c ∧ c.proto = some (p, k)) := by
+  have h := run_sinv ops _ (SInv_init l f ex)
+  generalize run (Side.init l f ex) ops = s at h
+  refine ⟨?_, ?_, h.buildOnce, ?_⟩
+  · intro uid c hc hp
+    rcases h.fate uid c hc hp with g | g | ⟨g1, g2⟩
+    · simp at g
+    · left
+      obtain ⟨us, hl, hm⟩ := mem_pendingFor g
+      obtain ⟨g1, _, g3⟩ := h.pendOK c.name us hl
+      obtain ⟨_, c0, hc0, _, _, hlk⟩ := g3 uid hm
+      rw [hc] at hc0; cases hc0
+      exact ⟨g, g1, hlk, (h.unconn uid c hc hp).1⟩
+    · right
+      refine ⟨g1, ?_, g2⟩
+      intro name hm
+      obtain ⟨us, hl, hm'⟩ := mem_pendingFor hm
+      obtain ⟨_, _, g3⟩ := h.pendOK name us hl
+      obtain ⟨_, c0, _, _, _, hlk⟩ := g3 uid hm'
+      exact g1 _ hlk
+  · intro uid c p k hc hp
+    have hlt := h.wf.bound uid c p k hc hp
+    obtain ⟨u, c0, k0, hc0, hp0, hb⟩ := h.built p hlt
+    have : u = uid := h.wf.uniq u uid c0 c p k0 k hc0 hc hp0 hp
+    subst this
+    rw [hc] at hc0; cases hc0
+    refine ⟨by rw [h.buildOnce p]; simp [hlt], hb, ?_⟩
+    intro uid' c' k' hc' hp'
+    exact h.wf.uniq uid' u c' c p k' k hc' hc hp' hp
+  · intro p hp
+    obtain ⟨u, c, k, hc, hpr, _⟩ := h.built p hp
+    exact ⟨u, c, k, hc, hpr⟩
+
 /-- a SubChannel never gets a second protocol, and no protocol is shared by two SubChannels: what
     protocol `x` SubChannel `uid` has after `ops1` it still has after any `ops2` -/
 theorem protocol_never_replaced (l : Bool) (f : Nat) (ex : Option (List String)) (ops1 ops2 : List Op)
@@ -330,21 +427,99 @@ theorem protocol_never_replaced (l : Bool) (f : Nat) (ex : Option (List String))
   rw [h] at this
   exact ⟨c', hc', this.2.2.2.2.1 x hx, this.1, this.2.1⟩
 
+/-! ## receiver side, per record -/
+
+/-- a (new) DATA record for a registered SubChannel whose protocol still reads is handed to
+    exactly that protocol, at once; nothing else changes -/
+theorem data_record_delivered (s : Side) (q scid uid : Nat) (d : Bytes) (c : SC) (pb : Nat) (k : PKind)
+    (hseq : ∀ h, s.highestAcked = some h → h < q)
+    (hl : lookup scid s.open_ = some uid) (hc : s.subs[uid]? = some c) (hp : c.proto = some (pb, k))
+    (hst : reading c.st = true) :
+    (step s (.rxData q scid d)).2 = none ∧ (step s (.rxData q scid d)).1.log = s.log ++ [.ack q, .data pb d] ∧
+    ∀ u : Nat, (step s (.rxData q scid d)).1.subs[u]? = s.subs[u]? := by
+  obtain ⟨hi, hg⟩ := gotRecord_fresh s q (handleData scid d) hseq
+  simp only [step, hg]
+  obtain ⟨s', hs', hlog, _, hself, hoth⟩ := handleData_connected
+    { s with log := s.log ++ [.ack q], highestAcked := hi } scid uid d c pb k hl hc hp hst
+  rw [hs']
+  refine ⟨rfl, by rw [hlog]; simp, ?_⟩
+  intro u
+  by_cases hu : u = uid
+  · subst hu; rw [hself]; exact hc.symm
+  · exact hoth u hu
+
+/-- a (new) DATA record for a SubChannel that has no protocol yet is appended to *that
+    SubChannel's own* queue; every other SubChannel object is untouched, no callback happens -/
+theorem data_record_queued (s : Side) (q scid uid : Nat) (d : Bytes) (c : SC) (l : List Bytes)
+    (hseq : ∀ h, s.highestAcked = some h → h < q)
+    (hl : lookup scid s.open_ = some uid) (hc : s.subs[uid]? = some c) (hst : c.st = .unconnected)
+    (hd : c.pendingData = some l) :
+    (step s (.rxData q scid d)).2 = none ∧ (step s (.rxData q scid d)).1.log = s.log ++ [.ack q] ∧
+    (step s (.rxData q scid d)).1.subs[uid]? = some { c with pendingData := some (l ++ [d]) } ∧
+    ∀ u : Nat, u ≠ uid → (step s (.rxData q scid d)).1.subs[u]? = s.subs[u]? := by
+  obtain ⟨hi, hg⟩ := gotRecord_fresh s q (handleData scid d) hseq
+  simp only [step, hg]
+  obtain ⟨s', hs', hlog, _, hself, hoth⟩ := handleData_queued
+    { s with log := s.log ++ [.ack q], highestAcked := hi } scid uid d c l hl hc hst hd
+  rw [hs']
+  exact ⟨rfl, hlog, hself, hoth⟩
+
 /-! ## data_before_close -/
 
-/-- Full statement (two-sided): if A's protocol wrote `d` and then closed, B's protocol for that
-    subchannel gets `dataReceived d` before `connectionLost`.  It is the composition of
-    (1) the FIFO pipe of `wstep` (C10's exactly-once in-order delivery, taken as given),
-    (2) `data_before_close_partial` below: after its CLOSE the sender puts no further DATA of that
-        protocol on the wire, so on the wire every DATA precedes the CLOSE,
-    (3) `connectSC_delivers_queued` / `nothing_after_lost`: the receiver hands records to the
-        protocol in arrival order and nothing after `connectionLost`.
-    (1)–(3) are proved separately; the glue — identifying B's SubChannel for A's scid across the
-    two logs — is not formalised, and is what the harness oracle `data-before-close` checks. -/
-def data_before_close_statement : Prop :=
+/-- The two-sided statement as first written, quantifying over *all* world operations — including
+    records injected from outside (`onB (.rxClose …)`).  It is FALSE of the model, and of the real
+    code: whoever can forge a CLOSE (i.e. breaks L2/L4, outside this property's environment) makes
+    `connectionLost` overtake data still in flight.  Witness below; replayed on the real code by
+    the harness corpus case "forged CLOSE". -/
+def data_before_close_unrestricted : Prop :=
   ∀ (sa sb : String) (ea eb : Option (List String)) (w : World), World.init sa sb ea eb = some w →
   ∀ (ops : List WOp) (pb : Nat) (d : Bytes) (pre mid post : List Eff) (q1 q2 scid uid : Nat) (c : SC) (k : PKind),
     (wrun w ops).a.log = pre ++ .txData q1 scid d :: mid ++ .txClose q2 scid :: post →
+    (wrun w ops).b.subs[uid]? = some c → c.scid = scid → c.proto = some (pb, k) →
+    ∀ i : Nat, (wrun w ops).b.log[i]? = some (.lost pb) →
+      ∃ j : Nat, j < i ∧ (wrun w ops).b.log[j]? = some (.data pb d)
+
+def forgedCloseOps : List WOp :=
+  [.onB (.listen "a" .full), .onA (.connect "a" .full), .deliverAB, .onA (.write 0 [7]), .onA (.lose 0),
+   .onB (.rxClose 5 1)]
+
+theorem data_before_close_unrestricted_false : ¬ data_before_close_unrestricted := by
+  intro h
+  have hw : World.init "b1" "a0" none none =
+      some { a := Side.init true 1 none, b := Side.init false 2 none, dAB := 0, dBA := 0 } := by
+    simp [World.init, chooseRole]
+  have := h "b1" "a0" none none _ hw forgedCloseOps 0 [7]
+    [.txOpen 0 1 "a", .build 0 "a", .made 0] [] [] 1 2 1 0
+    { scid := 1, name := "a", st := .closed, proto := some (0, .full), pendingData := none, pendingClose := false } .full
+    (by decide) (by decide) rfl rfl 5 (by decide)
+  obtain ⟨j, hj, hd⟩ := this
+  have hall : ∀ j : Nat, j < 5 →
+      (wrun { a := Side.init true 1 none, b := Side.init false 2 none, dAB := 0, dBA := 0 } forgedCloseOps).b.log[j]? ≠
+        some (.data 0 [7]) := by decide
+  exact hall j hj hd
+
+/-- **data_before_close**, the statement for the environment of this property (the peer is honest
+    and L4 delivers in order: `WOp.honest`): DATA that A put on the wire for a subchannel before
+    its (first) CLOSE reaches `dataReceived` of B's protocol for that subchannel before that
+    protocol's `connectionLost`.
+
+    Proved: (1) the FIFO pipe is how `wstep` is defined; (2) `data_before_close_partial` — after
+    its CLOSE the sender puts no further DATA of that protocol on the wire; (3) the receiver, per
+    record and per SubChannel object: `data_record_delivered` (at once, to exactly that protocol),
+    `data_record_queued` + `listen_connects_all_pending` + `each_pending_gets_its_own_data` (own
+    queue, handed over in arrival order after `connectionMade`, the queued CLOSE last), and
+    `nothing_after_lost`.  NOT proved: the glue between the two logs — that every record A sends
+    for `scid` is routed to *the* SubChannel B has for `scid` (B's object exists and is still
+    registered when the record arrives).  That needs a two-sided causality invariant (A only
+    sends on ids whose OPEN precedes on the wire or that B allocated earlier; ids are never
+    reused) which is not formalised; the harness oracle `data-before-close` checks the statement
+    itself on every honest run of the real code. -/
+def data_before_close_statement : Prop :=
+  ∀ (sa sb : String) (ea eb : Option (List String)) (w : World), World.init sa sb ea eb = some w →
+  ∀ (ops : List WOp), (∀ o ∈ ops, WOp.honest o = true) →
+  ∀ (pb : Nat) (d : Bytes) (pre mid post : List Eff) (q1 q2 scid uid : Nat) (c : SC) (k : PKind),
+    (wrun w ops).a.log = pre ++ .txData q1 scid d :: mid ++ .txClose q2 scid :: post →
+    (∀ q, Eff.txClose q scid ∉ pre) →
     (wrun w ops).b.subs[uid]? = some c → c.scid = scid → c.proto = some (pb, k) →
     ∀ i : Nat, (wrun w ops).b.log[i]? = some (.lost pb) →
       ∃ j : Nat, j < i ∧ (wrun w ops).b.log[j]? = some (.data pb d)
@@ -421,6 +596,25 @@ example : (step exPending (.listen "a" .full)).2 = none ∧
     { scid := 1, name := "a", st := .unconnected, proto := none, pendingData := some [[7], [8]], pendingClose := false }
     [[7], [8]] (by decide) (by decide) (by decide) rfl rfl rfl rfl
   ⟨h.1, h.2.1⟩
+
+/-- two pending OPENs for "a", each with its own DATA, the first also with a queued CLOSE: `listen`
+    builds protocol 0 and 1 in arrival order; 0 reads [7] then is closed, 1 reads [8],[9] -/
+def exPending2 : Side := run (Side.init false 2 none)
+  [.rxOpen 0 1 "a", .rxOpen 1 3 "a", .rxData 2 1 [7], .rxData 3 3 [8], .rxClose 4 1, .rxData 5 3 [9]]
+
+example : (step exPending2 (.listen "a" .full)).1.log.drop exPending2.log.length =
+    [.build 0 "a", .made 0, .data 0 [7], .txClose 0 1, .lost 0, .build 1 "a", .made 1, .data 1 [8], .data 1 [9]] := by
+  decide
+
+example : lookup "a" exPending2.pendingOpens = some [0, 1] ∧
+    PendOK exPending2 (0, { scid := 1, name := "a", st := .unconnected, proto := none, pendingData := some [[7]], pendingClose := true }, [[7]], true) ∧
+    PendOK exPending2 (1, { scid := 3, name := "a", st := .unconnected, proto := none, pendingData := some [[8], [9]], pendingClose := false }, [[8], [9]], false) := by
+  unfold PendOK
+  decide
+
+/-- the third case of `open_exactly_once`.1 is real: a peer that (against the protocol) opens one
+    of *our* ids makes our next `connect()` fail with AssertionError, leaving a garbage object -/
+example : (step (run (Side.init true 1 none) [.rxOpen 0 1 "a"]) (.connect "b" .full)).2 = some .assertion := by decide
 
 end Examples
 
